@@ -18,7 +18,8 @@ func init() {
 	// the mod-hash selector is mirrored by C13's model as well; listing a function twice is harmless
 	mirrored["tars/selector/modhash/modhash.go"] = c14AppendUnique(mirrored["tars/selector/modhash/modhash.go"],
 		"ModHash.Select", "ModHash.Refresh", "ModHash.Add", "ModHash.addLocked", "ModHash.Remove", "ModHash.reBuildLocked")
-	mirrored["tars/endpointmanager.go"] = c14AppendUnique(mirrored["tars/endpointmanager.go"], "endpointManager.SelectAdapterProxy")
+	mirrored["tars/endpointmanager.go"] = c14AppendUnique(mirrored["tars/endpointmanager.go"], "endpointManager.SelectAdapterProxy",
+		"endpointManager.updateActiveEp", "endpointManager.addAliveEp", "endpointManager.enableWeight")
 	mirrored["tars/util/current/clientcurrent.go"] = c14AppendUnique(mirrored["tars/util/current/clientcurrent.go"],
 		"SetClientHash", "GetClientHash", "newClientCurrent")
 	mirrored["tars/message.go"] = c14AppendUnique(mirrored["tars/message.go"], "Message.SetHash", "Message.HashCode", "Message.HashType", "Message.IsHash")
@@ -97,6 +98,44 @@ func init() {
 			add("conHashRepaired", 0, true)
 		default:
 			anchorLost("consistenthash_new.go: neither the as-found nor the repaired shape of addLocked/Remove recognised")
+		}
+		// endpointManager.updateActiveEp decides the weight type in force from the NEW endpoint list
+		// alone: `e.weightType = endpoint.ELoop` unconditionally, then `if sameType { e.weightType = … }`
+		// (Lean: HashRoute.updateWeightType / effectiveWeightType, theorem C14_weight_type_pure).
+		em := parse("tars/endpointmanager.go")
+		epf := parse("tars/util/endpoint/endpoint.go")
+		if cs := epf.iotaConsts("ELoop"); cs != nil {
+			add("conHashWtELoop", cs["ELoop"], true)
+			add("conHashWtEStaticWeight", cs["EStaticWeight"], true)
+		}
+		if c14HasFunc(em, "endpointManager.updateActiveEp") {
+			fd := em.funcDecl("endpointManager.updateActiveEp")
+			reset, test, elseResets := -1, -1, false
+			for i, st := range fd.Body.List { // top-level statements only: not nested in any branch or loop
+				if as, ok := st.(*ast.AssignStmt); ok && as.Tok == token.ASSIGN && len(as.Lhs) == 1 && len(as.Rhs) == 1 &&
+					exprStr(em.fset, as.Lhs[0]) == "e.weightType" && exprStr(em.fset, as.Rhs[0]) == "endpoint.ELoop" && reset < 0 {
+					reset = i
+				}
+				if is, ok := st.(*ast.IfStmt); ok && exprStr(em.fset, is.Cond) == "sameType" && test < 0 {
+					test = i
+					// the equivalent shape `if sameType { … } else { e.weightType = endpoint.ELoop }`
+					if blk, ok := is.Else.(*ast.BlockStmt); ok && len(blk.List) == 1 {
+						if as, ok := blk.List[0].(*ast.AssignStmt); ok && len(as.Lhs) == 1 && len(as.Rhs) == 1 &&
+							exprStr(em.fset, as.Lhs[0]) == "e.weightType" && exprStr(em.fset, as.Rhs[0]) == "endpoint.ELoop" {
+							elseResets = true
+						}
+					} else if is.Else != nil {
+						test = -2
+					}
+				}
+			}
+			if (reset >= 0 && test > reset) || (test >= 0 && elseResets) {
+				add("conHashWtResetBeforeSameType", 1, true)
+			} else {
+				anchorLost("endpointmanager.go: updateActiveEp: unconditional `e.weightType = endpoint.ELoop` before `if sameType {…}` not found (the weight type in force must be computed from the new list only)")
+			}
+		} else {
+			anchorLost("endpointmanager.go: updateActiveEp not found")
 		}
 		// Ketama: `for k := 0; k < 4; k++` — ring points taken from one MD5 digest, in addLocked and (as found) in Remove
 		v, ok = ch.cmpLit("ConsistentHash.addLocked", "k", token.LSS)
